@@ -254,12 +254,14 @@ Commit(r) == /\ lease' = r.s.lease /\ next' = r.s.next /\ file' = r.s.file
 \*   dur, dmac, dcap : the binding last acknowledged to k that the server has not visibly dropped since (k declined
 \*                it, selected another server, or came back with another MAC / capture state): what a
 \*                restart may legitimately find in the lease file (C18_CleanRestart, upper bound)
+\*   lx         : k's lease object was acknowledged at least once since the server created it (it then carries an
+\*                expiry in the future and a minute tick does not free it while it waits in discover state)
 \*   ever       : every [mac, ip] ever acknowledged to k (cause tag of C18_CleanRestart)
 \*   offd       : every address ever OFFERed to k (cause tag KF_StaleOfferKept)
 \*   req, dup, stl : addresses that reached k through the requested-address shortcut / while an OFFER
 \*                of the same address to another client was outstanding / by re-offering an expired
 \*                offer (cause tags only)
-NoObs == [offer |-> NoA, xid |-> NoX, old |-> FALSE, void |-> FALSE, omac |-> NoMac, ocap |-> FALSE, last |-> NoA, dur |-> NoA, dmac |-> NoMac, dcap |-> FALSE, ever |-> {}, offd |-> {},
+NoObs == [offer |-> NoA, xid |-> NoX, old |-> FALSE, void |-> FALSE, omac |-> NoMac, ocap |-> FALSE, last |-> NoA, dur |-> NoA, dmac |-> NoMac, dcap |-> FALSE, lx |-> FALSE, ever |-> {}, offd |-> {},
           req |-> {}, dup |-> {}, stl |-> {}]
 
 \* a binding ends (weakest reading) when a message of that client id arrives from another MAC or
@@ -307,7 +309,7 @@ Cause(g, e, r, A, O, h0) ==
      THEN (IF g = "C12_Mask" /\ r.mask \in {1, 2} /\ ~r.mbr /\ e.prl = "rm"
            THEN "KF_PRLRouterFirst"       \* the client's parameter request list puts the router before the mask
            ELSE "none")
-     ELSE IF conflict /\ a # NoA /\ (\/ (e.kind = "discover" /\ O[k].offer = a /\ O[k].old /\ AIp(A, k) # a /\ O[k].last # a)
+     ELSE IF conflict /\ a # NoA /\ (\/ (e.kind = "discover" /\ O[k].offer = a /\ O[k].old /\ AIp(A, k) # a /\ ~O[k].lx)   \* never acknowledged: the tick freed it
                                      \/ (e.kind = "discover" /\ O[k].offer # a /\ a \in O[k].offd /\ AIp(A, k) # a /\ O[k].last # a)
                                      \/ a \in O[k].stl
                                      \/ \E j \in Holders(e, r, A) : a \in O[j].stl)
@@ -322,6 +324,9 @@ Cause(g, e, r, A, O, h0) ==
                                       \* so the stale free lease can hide the lease that holds the address now
      ELSE IF g = "C11_NotOthersTracked" /\ had
      THEN "KF_SessionNotRechecked"    \* re-offer / re-acknowledgement of k's address does not consult the session again
+     ELSE IF g = "C11_NotReserved" /\ a = Net2Lo /\ a # 0 /\ had
+     THEN "KF_Net2NetworkAddrKept"    \* the netfilter subnet's network address is an ordinary host address of the home LAN: a client
+                                      \* that holds it keeps it when it is captured and the lease is re-attached to net2 (reload)
      ELSE IF g = "C11_NotReserved" /\ a \in {HostA, RouterA}
      THEN "KF_ReservedBySessionOnly"  \* our / the router's address is protected by the session's host entry only (and only
                                       \* at allocation time): it got out while the session did not track it for its owner
@@ -346,14 +351,14 @@ PropMsg(e, out, h0, cap) ==
       void0 == e.kind = "request" /\ e.reff = NoA
       o1 == IF void0 THEN obs[k]
             ELSE IF obs[k].dmac # NoMac /\ (obs[k].dmac # e.m \/ obs[k].dcap # cap)      \* the server re-creates the lease
-            THEN [o0 EXCEPT !.last = NoA, !.dur = NoA, !.dmac = NoMac] ELSE o0
+            THEN [o0 EXCEPT !.last = NoA, !.dur = NoA, !.dmac = NoMac, !.lx = FALSE] ELSE o0
       o1b == IF e.kind = "request" /\ e.sid = "other" THEN [o1 EXCEPT !.dur = NoA, !.dmac = NoMac] ELSE o1
       o2 == IF tous THEN [o1b EXCEPT !.void = TRUE, !.last = IF e.kind = "decline" /\ e.reff = @ THEN NoA ELSE @,
                                      !.dur = IF e.kind = "decline" /\ e.reff = @ THEN NoA ELSE @] ELSE o1b
       O2 == [obs EXCEPT ![k] = o2]
       renew == IF RenewDue(e, A2) THEN {[g |-> "C18_RenewAcked", c |-> "none"]} ELSE {}
   IN IF out = <<>> THEN /\ acked' = A2 /\ verdict' = renew
-                        /\ obs' = IF e.kind = "discover" THEN [O2 EXCEPT ![k].void = TRUE] ELSE O2   \* no OFFER: pool exhausted, lease dropped
+                        /\ obs' = IF e.kind = "discover" THEN [O2 EXCEPT ![k].void = TRUE, ![k].lx = FALSE] ELSE O2   \* no OFFER: pool exhausted, lease dropped
      ELSE LET r == out[1]
               a == r.yi
           IN IF r.t = "nak" THEN /\ acked' = [A2 EXCEPT ![k] = Nil] /\ obs' = O2 /\ verdict' = renew
@@ -362,7 +367,7 @@ PropMsg(e, out, h0, cap) ==
                       dup == IF r.t = "offer" /\ a # NoA /\ (~had \/ (o2.offer = a /\ o2.old)) /\ (\E j \in CIDs \ {k} : O2[j].offer = a /\ ~O2[j].old)
                              THEN o2.dup \cup {a} ELSE o2.dup
                       \* an expired offer repeated although the address is meanwhile acknowledged to / tracked for another
-                      stl == IF e.kind = "discover" /\ a # NoA /\ o2.offer = a /\ o2.old /\ AIp(A2, k) # a /\ o2.last # a
+                      stl == IF e.kind = "discover" /\ a # NoA /\ o2.offer = a /\ o2.old /\ AIp(A2, k) # a /\ ~o2.lx
                                 /\ (Holders(e, r, A2) # {} \/ HostAt(h0, a) \notin {NoMac, e.m})
                              THEN o2.stl \cup {a}
                              ELSE IF e.kind = "discover" /\ a # NoA /\ o2.offer # a /\ a \in o2.offd /\ AIp(A2, k) # a /\ o2.last # a
@@ -377,7 +382,7 @@ PropMsg(e, out, h0, cap) ==
                         THEN /\ obs' = [O2 EXCEPT ![k] = [o2 EXCEPT !.offer = a, !.xid = r.xid, !.old = FALSE, !.void = FALSE, !.omac = e.m, !.ocap = cap, !.req = req, !.dup = dup, !.stl = stl,
                                                                  !.offd = @ \cup {a}]]
                              /\ acked' = IF AIp(A2, k) # a THEN [A2 EXCEPT ![k] = Nil] ELSE A2
-                        ELSE /\ obs' = [O2 EXCEPT ![k] = [o2 EXCEPT !.offer = NoA, !.xid = NoX, !.old = FALSE, !.void = FALSE, !.last = a, !.dur = a, !.dmac = e.m, !.dcap = cap,
+                        ELSE /\ obs' = [O2 EXCEPT ![k] = [o2 EXCEPT !.offer = NoA, !.xid = NoX, !.old = FALSE, !.void = FALSE, !.last = a, !.dur = a, !.dmac = e.m, !.dcap = cap, !.lx = TRUE,
                                                                  !.ever = @ \cup {[mac |-> e.m, ip |-> a]}, !.req = req, !.dup = dup]]
                              /\ acked' = [A2 EXCEPT ![k] = [ip |-> a, mac |-> e.m, cap |-> cap]]
 
@@ -467,7 +472,8 @@ RestartR == /\ acked' = [j \in CIDs |-> IF acked[j] # Nil /\ (acked[j].cap \/ ~I
             /\ obs' = [j \in CIDs |-> [obs[j] EXCEPT !.offer = NoA, !.xid = NoX, !.old = FALSE, !.void = FALSE,
                                                       !.last = IF lease'[j] # Nil THEN lease'[j].ip ELSE NoA,
                                                       !.dur = IF lease'[j] # Nil THEN lease'[j].ip ELSE NoA,
-                                                      !.dmac = IF lease'[j] # Nil THEN lease'[j].mac ELSE NoMac, !.dcap = FALSE]]
+                                                      !.dmac = IF lease'[j] # Nil THEN lease'[j].mac ELSE NoMac, !.dcap = FALSE,
+                                                      !.lx = (lease'[j] # Nil)]]
             /\ verdict' = RestartVerdict(lease')
 Restart == RestartM /\ RestartR
 
@@ -480,7 +486,8 @@ ReloadR == /\ acked' = [j \in CIDs |-> IF acked[j] # Nil /\ (~InNet(1, acked[j].
                                                      !.last = IF lease'[j] # Nil THEN lease'[j].ip ELSE NoA,
                                                      !.dur = IF lease'[j] # Nil THEN lease'[j].ip ELSE NoA,
                                                      !.dmac = IF lease'[j] # Nil THEN lease'[j].mac ELSE NoMac,
-                                                     !.dcap = lease'[j] # Nil /\ lease'[j].net = 2]]   \* the subnet the loader attached it to
+                                                     !.dcap = lease'[j] # Nil /\ lease'[j].net = 2,    \* the subnet the loader attached it to
+                                                     !.lx = (lease'[j] # Nil)]]
            /\ verdict' = RestartVerdict(lease')
 Reload == ReloadM /\ ReloadR
 
